@@ -39,6 +39,9 @@ int32 Hendbitaccess(int32 b, int fl) { (void)b; (void)fl; return SUCCEED; }
 #include "cnbit.c"
 
 #define NV 3
+#ifndef BLSUB
+#define BLSUB 0
+#endif
 #ifndef PART
 #define PART 1
 #endif
@@ -109,9 +112,13 @@ void harness(void)
     int bl, se, fo;
     H4V_GET_ARR(val, NV * NTSZ);
     /* parameters enumerated (they drive the coder's control flow); values symbolic */
-    for (bl = 1; bl <= START_BIT + 1; bl++)
+    for (bl = 1; bl <= START_BIT + 1; bl++) {
+#if BLSUB /* quick tier, 4-byte types: bit lengths at and next to the byte boundaries and at both ends of the range */
+        if (!(bl <= 2 || bl % 8 <= 1 || bl % 8 == 7 || bl >= START_BIT)) continue;
+#endif
         for (se = 0; se <= 1; se++)
             for (fo = 0; fo <= 1; fo++)
                 one(START_BIT, bl, se, fo);
+    }
     H4V_WITNESS();
 }
